@@ -89,6 +89,7 @@ def call(fn, *a, **k):
         return "ok", fn(*a, **k)
     except Exception as e:  # library exceptions are data for the oracle
         e._vv_tb = traceback.format_exc(limit=6)
+        e.__traceback__ = None          # do not keep the library's frames (and their temporaries) alive
         return "exc", e
 
 
